@@ -406,3 +406,34 @@ Ltac fin_step :=
   end.
 Example finite_all : finite h_all (VRef 7).
 Proof. repeat fin_step. Qed.
+
+(* ------------------------------------------------------------------ truth value of the task object (round 4) *)
+(* Dataset(items=[]) submitted (a task whose __len__ is 0), then Consumer(dataset=d): the unchanged
+   `if self.task and not self.loaded` does not see the mark of the falsy task, searches its parameters and
+   registers nothing *)
+Definition h_falsy : heap :=
+  [ mk [VAtom] [] [] (Some 0) (Some 0) (Some 0);      (* 0: the submitted task, evaluates to False *)
+    mk [VRef 0] [] [] None None None ].               (* 1: Consumer(dataset=d), being submitted *)
+Definition falsy0 (t : nat) : bool := Nat.eqb t 0.
+
+Theorem deps_exact_falsy_task_refuted : exists h falsy root fuel,
+  marks_ok h /\ n_sub (get h root) = None /\
+  collect (blind falsy h) fuel root [] = Some [] /\ reachv h (VRef root) 0 /\
+  collect h fuel root [] = Some [0].
+Proof.
+  exists h_falsy, falsy0, 1, 5. split.
+  { split.
+    - intros n k H. destruct n as [|[|n]]; simpl in *; try discriminate; inversion H; subst; auto.
+      destruct n; discriminate.
+    - intros n t H. destruct n as [|[|n]]; simpl in *; try discriminate; inversion H; subst; simpl; eauto.
+      destruct n; discriminate. }
+  split; [reflexivity|]. split; [reflexivity|]. split; [|reflexivity].
+  apply r_field with (v := VRef 0); simpl; auto. apply r_task; reflexivity.
+Qed.
+
+(* when no marked task evaluates to False the literal walk is the walk *)
+Lemma blind_none : forall h, blind (fun _ => false) h = h.
+Proof.
+  intros h. unfold blind. rewrite <- (map_id h) at 2. apply map_ext. intros nd. unfold blind_node.
+  destruct (n_task nd); reflexivity.
+Qed.
